@@ -144,7 +144,7 @@ func canonObserved(nodes map[int]hc.Event, a hc.Arg) string {
 
 func checkC05(c *Ctx) error {
 	c.Ev = evidence.New("C05", c.Tier, c.Seed, "exploration",
-		"operator tables: 1-3 levels, each level @left or @right, 1-2 binary operators per level, atoms, optional parentheses, optional call syntax in a lower (unqualified) rule, optionally below a @list start rule; inputs: the shortest sentences plus random operator/operand chains up to 25 tokens. Runtime oracle: the tree built by the real actions (rebuilt from the recorded action log) must equal the grouping of a precedence-climbing parser over the same table. Table oracle (volume, through the lr1 hook): every cell decided by equal-level associativity must shift for @right and reduce for @left. Non-trivial: inputs with at least two binary operators; distinct by table+input.")
+		"operator tables: 1-3 levels, each level @left or @right, 1-2 binary operators per level, atoms, optional parentheses, optional call syntax in a lower (unqualified) rule, optionally below a @list start rule; inputs: the shortest sentences plus random operator/operand chains up to 25 tokens. Runtime oracle: the tree built by the real actions (rebuilt from the recorded action log) must equal the grouping of a precedence-climbing parser over the same table. Table oracle (volume, through the lr1 hook): every cell decided by equal-level associativity must shift for @right and reduce for @left; in tables with an operator-shaped alternative that carries no qualifier (prefix, postfix, index or binary) the cells in which it meets the qualified ones must keep all their candidate actions (unqualified alternatives take no part in precedence resolution). Non-trivial: inputs with at least two binary operators; distinct by table+input.")
 	c.Ev.Assumptions = []string{
 		"precedence climbing: higher n binds tighter; equal level: @left groups left-to-right, @right right-to-left",
 		"tables whose shifting productions carry different levels or whose levels mix associativity are skipped (unspecified)",
@@ -157,13 +157,35 @@ func checkC05(c *Ctx) error {
 	parallel(8, 8, func(w int) {
 		r := c.R.Derive("p0", w)
 		for i := 0; i < nP0/8; i++ {
-			es := specgen.ExprGrammar(r, "")
+			tw := ""
+			if r.Chance(1, 6) {
+				// "unqualified alternatives are unaffected": an operator-shaped
+				// alternative without a qualifier takes no part in precedence
+				// resolution, its conflicts with the qualified ones stay
+				tw = []string{"unqualified-prefix", "unqualified-postfix", "unqualified-op"}[r.Intn(3)]
+			}
+			es := specgen.ExprGrammar(r, tw)
 			cf := es.G.Desugar(false)
 			tbl, err := lalr.Build(toLalr(cf), 3000)
 			if err != nil {
 				continue
 			}
 			rr := resolveRef(tbl, cf)
+			if tw != "" && !rr.Unspecified && len(rr.Unresolved) > 0 {
+				var d *verifhook.ParserDump
+				c.Guard("lr1.ConstructLALR on the grammar in g.lox", map[string]string{"g.lox": loxOf(es.G)}, func() { d = verifhook.BuildLALR(hookSpec(cf)) })
+				c.Ev.Eval(1)
+				c.Ev.Count("tables_with_unqualified_operator_alternative", 1)
+				c.Ev.Distinct(loxOf(es.G))
+				diff, _, _ := compareAutomata2(tbl, rr, cf, d, false)
+				if diff == "" && !d.HasConflicts {
+					diff = "the table is reported free of conflicts"
+				}
+				if diff != "" {
+					c.Violation("unqualified-alternative-took-part-in-precedence/"+tw, &Replay{Why: "lr1.ConstructLALR: " + diff, Files: map[string]string{"g.lox": loxOf(es.G)}})
+				}
+				continue
+			}
 			if rr.Unspecified || len(rr.Unresolved) > 0 {
 				mu.Lock()
 				stats["tables_skipped_unspecified_or_conflicting"]++
